@@ -14,7 +14,7 @@ Statically decided clauses:
 Not decided: carry resolution arithmetic, sealing arithmetic, FIFO value identity, maybe_exhausted after the
 last symbol.
 """
-from vlib import sym, rules, effects
+from vlib import sym, rules, effects, anchors
 import props.C07 as c07
 import props.C08 as c08
 import props.C18 as c18
@@ -169,7 +169,7 @@ def role_words(t):
 
 def check_flush_siblings(ctx, F):
     enc = [b for b in F.bodies if b.promoted is None and b.name == 'encode_symbol' and b.self_adt == RENC and b.impl_trait == 'stream::Encode']
-    seal = c08.get_body(F, [RENC, '::seal'], 'seal')
+    seal = anchors.range_encoder_parts(F)['seal']
     key = 'R4/flush-siblings/' + RENC
     role = 'both copies of the held-back-word flush emit the same words'
     if not enc or not seal:
